@@ -401,6 +401,109 @@ func runC12(c *Ctx) {
 				}
 			}
 		}
+		if len(order) == 0 {
+			// second form: four explicit statements instead of a range over an array literal
+			fields := []string{"full", "domain", "regex", "keyword"}
+			calls := make([]*ssa.Call, 4)
+			nCalls := 0
+			eachInstr(f, func(in ssa.Instruction) {
+				cl, ok := in.(*ssa.Call)
+				if !ok || cl.Call.IsInvoke() || len(cl.Call.Args) == 0 {
+					return
+				}
+				sc := cl.Call.StaticCallee()
+				if sc == nil || !isMatchMethod(sc) {
+					return
+				}
+				nCalls++
+				k, _ := loadedField(cl.Call.Args[0])
+				for i, fld := range fields {
+					if k == D+"MixMatcher."+fld {
+						calls[i] = cl
+					}
+				}
+			})
+			okOf := func(cl *ssa.Call) ssa.Value {
+				for _, r := range referrers(cl) {
+					if ex, ok := r.(*ssa.Extract); ok && ex.Index == 1 {
+						return ex
+					}
+				}
+				return nil
+			}
+			good = nCalls == 4
+			first = true
+			got = got[:0]
+			for i, cl := range calls {
+				if cl == nil {
+					good = false
+					got = append(got, "")
+					continue
+				}
+				got = append(got, want[i])
+				if cl.Call.Args[1] != ssa.Value(f.Params[1]) {
+					good = false
+				}
+				if i == 0 {
+					continue
+				}
+				prev := calls[i-1]
+				if prev == nil {
+					continue
+				}
+				// reached only after the previous matcher missed
+				gated := false
+				for _, g := range guardsOfInstr(cl) {
+					if v, truth := g.asBool(); v != nil && v == okOf(prev) && !truth {
+						gated = true
+					}
+				}
+				if !gated || !instrDominates(prev, cl) {
+					good = false
+				}
+			}
+			// a hit ends the lookup with that matcher's value
+			isMatch := func(x ssa.Instruction) bool {
+				cl, ok := x.(*ssa.Call)
+				return ok && cl.Call.StaticCallee() != nil && isMatchMethod(cl.Call.StaticCallee())
+			}
+			for i, cl := range calls {
+				if cl == nil || okOf(cl) == nil {
+					continue
+				}
+				for _, r := range referrers(okOf(cl)) {
+					iff, isIf := r.(*ssa.If)
+					if !isIf {
+						continue
+					}
+					if _, more := reachFromBlock(succOnTruth(iff, true), isMatch, nil); more {
+						first = false
+					}
+					if ret, ok := reachFromBlock(succOnTruth(iff, true), isReturn, nil); ok {
+						rv := returnedValues(ret.(*ssa.Return))
+						if ex, isEx := rv[0].(*ssa.Extract); !isEx || ex.Tuple != ssa.Value(cl) || ex.Index != 0 {
+							first = false
+						}
+						if b, isC := constBool(rv[1]); (!isC || !b) && rv[1] != okOf(cl) {
+							first = false
+						}
+					}
+				}
+				if i == 3 {
+					// the last matcher's result is final: returned as it is (or through the same hit test)
+					used := false
+					for _, ret := range returnsOf(f) {
+						rv := returnedValues(ret)
+						if ex, isEx := rv[0].(*ssa.Extract); isEx && ex.Tuple == ssa.Value(cl) {
+							used = true
+						}
+					}
+					if !used {
+						first = false
+					}
+				}
+			}
+		}
 		c.check(good && first, "precedence@MixMatcher.Match", f.Pos(), "full > domain > regexp > keyword, first hit returned",
 			"lookup order is "+strings.Join(got, ", ")+" (first hit returned: "+fmt.Sprint(first)+"); expected full, domain, regexp, keyword")
 	}
@@ -595,6 +698,9 @@ func runC12(c *Ctx) {
 					continue // the range loop's own "more elements" test
 				}
 			}
+			if g.Derived {
+				continue
+			}
 			extra = guardText(g)
 		}
 		if sk, _ := iterationCanSkip(test, nil); sk && extra == "" {
@@ -704,4 +810,16 @@ func runC12(c *Ctx) {
 		c.anchorMissing("domain.Load")
 	}
 
+}
+
+// isMatchMethod: f is a method named Match (an instantiation prints as Match[T]).
+func isMatchMethod(f *ssa.Function) bool {
+	if f.Origin() != nil {
+		f = f.Origin()
+	}
+	n := f.Name()
+	if i := strings.IndexByte(n, '['); i >= 0 {
+		n = n[:i]
+	}
+	return n == "Match" && f.Signature.Recv() != nil
 }
